@@ -122,6 +122,7 @@ type FuncTr struct {
 	rfLoops    []*LoopInfo
 	recvTy     types.Type
 	elemsEager map[string]bool
+	dupTag     string // suffix for value constants while a return block is duplicated per incoming edge
 	callOrd    map[ssa.Instruction]int // source-order rank of each call among same-named calls (`assert after f#n`)
 	curCallNth int
 }
@@ -939,6 +940,9 @@ func (ft *FuncTr) block(b *ssa.BasicBlock) error {
 			if !am.whole {
 				ft.assume(preAt, frameCond(am, before, after, preNext))
 			}
+			if !am.whole && len(am.locs) == 0 {
+				ft.h.noteFreshFrame(before, after, preNext)
+			}
 		}
 		for _, n := range sortedKeys(l.modGhost) {
 			old := ft.h.ghostVar(pre, n, l.modGhost[n])
@@ -988,6 +992,30 @@ func (ft *FuncTr) block(b *ssa.BasicBlock) error {
 		if len(invs) > 0 {
 			ft.cover(at, fmt.Sprintf("cover.loop%d", l.Ordinal), "")
 		}
+	} else if len(es) > 1 && ft.returnsDirectly(b) {
+		// tail duplication: a small block that ends in a return is translated once per incoming edge, so
+		// that postconditions are proved on each path's own state instead of a merged one
+		for k, e := range es {
+			ft.dupTag = fmt.Sprintf("_p%d", k+1)
+			atk := ft.d.Const(fmt.Sprintf("at_b%d_p%d", b.Index, k+1), SBool)
+			ft.assumeRaw(Eq(atk, e.cond))
+			stk := e.st.clone()
+			for _, in := range b.Instrs {
+				if p := in.Pos(); p.IsValid() {
+					ft.curPos = p
+				}
+				done, err := ft.instr(b, stk, atk, in)
+				if err != nil {
+					ft.dupTag = ""
+					return err
+				}
+				if done {
+					break
+				}
+			}
+		}
+		ft.dupTag = ""
+		return nil
 	} else {
 		st, at = ft.merge(b, es)
 	}
@@ -1101,7 +1129,7 @@ func (ft *FuncTr) define(v ssa.Value, t *Term) {
 		ft.vals[v] = Val{T: t}
 		return
 	}
-	n := ft.d.Const(fmt.Sprintf("%s_%s", sanitize(v.Name()), fnTag(ft.fn)), t.Sort)
+	n := ft.d.Const(fmt.Sprintf("%s_%s%s", sanitize(v.Name()), fnTag(ft.fn), ft.dupTag), t.Sort)
 	ft.assumeRaw(Eq(n, t))
 	ft.vals[v] = Val{T: n}
 }
@@ -1349,4 +1377,21 @@ func sortedRanges(m map[*ssa.Range]bool) []*ssa.Range {
 		return out[i].Name() < out[j].Name()
 	})
 	return out
+}
+
+// returnsDirectly: b ends in a return, has no phi and contains no call with anchored assertions
+func (ft *FuncTr) returnsDirectly(b *ssa.BasicBlock) bool {
+	if len(b.Instrs) == 0 || len(b.Instrs) > 40 {
+		return false
+	}
+	if _, ok := b.Instrs[len(b.Instrs)-1].(*ssa.Return); !ok {
+		return false
+	}
+	for _, in := range b.Instrs {
+		switch in.(type) {
+		case *ssa.Phi, *ssa.Defer, *ssa.Go:
+			return false
+		}
+	}
+	return true
 }
